@@ -608,6 +608,8 @@ class SysEngine(MempoolEngine):
                 owner = getattr(t.get_coro(), '__qualname__', '') if t else ''
                 if 'fetch_and_process_blocks' in owner or 'keep_synchronized' in owner or '_refresh_hashes' in owner:
                     return      # only client-request reads are held back, never the block processor's or the mempool's own
+                if c.get('hold_requests_only') and 'notify' in owner.lower():
+                    return      # ... and in this family not the reads made while notifying either: a request's read outlasts them
                 under = c.get('longpark_start_under')
                 if under:
                     # only reads issued from inside the named functions are held, and at their start: the job looks at the
@@ -741,6 +743,22 @@ def gen_lag_script(rng, nclients, nscripts):
             script.append(('sleep', rng.choice((0, 2, 5.1))))
             script.append(('rpc_reorg', 2))
         script.append(('sleep', rng.choice((20, 40))))
+    return script
+
+
+def gen_subscribe_race_script(rng, nclients, nscripts, rounds=None):
+    '''Subscriptions (single and duplicated) whose history read is in flight while a block touching the script is indexed and
+    notified; nothing else is subscribed or cached beforehand.'''
+    script = [('hsub', ci) for ci in range(nclients)] + [('sleep', 6)]
+    order = list(range(min(4, nscripts)))          # the hot scripts: most blocks touch them
+    rng.shuffle(order)
+    for si in order[:rounds or rng.randrange(2, 5)]:
+        script += [('w', 'add'), ('w', 'add'), ('sleep', 6)]
+        ci = rng.randrange(nclients)
+        script += [('sub', ci, si)] * rng.choice((1, 2, 2, 3))
+        if nclients > 1 and rng.random() < 0.3:
+            script.append(('sub', 1 - ci, si))
+        script += [('sleep', rng.choice((0, 0.05))), ('w', rng.choice(('mine_all', 'mine_all', 'mine_some', 'mine2'))), ('sleep', 25)]
     return script
 
 
